@@ -172,7 +172,7 @@ fn gen(rng: &mut Rng, cell: &mut Cell) -> GCfg {
 }
 
 fn to_toml(g: &GCfg, cell: &Cell, port: u16) -> String {
-    let mut s = format!("[general]\nhost = \"127.0.0.1\"\nport = {}\nadmin_username = \"{}\"\nadmin_password = \"{}\"\nconnect_timeout = 1000\nhealthcheck_timeout = 500\nshutdown_timeout = 1000\nvalidate_config = false\nworker_threads = 2\nban_time = 1\n", port, ADMIN_USER, ADMIN_PASS);
+    let mut s = format!("[general]\nhost = \"127.0.0.1\"\nport = {}\nadmin_username = \"{}\"\nadmin_password = \"{}\"\nconnect_timeout = 4000\nhealthcheck_timeout = 4000\nshutdown_timeout = 1000\nvalidate_config = false\nworker_threads = 2\nban_time = 1\n", port, ADMIN_USER, ADMIN_PASS);
     for p in &g.pools {
         s.push_str(&format!("\n[pools.{}]\npool_mode = \"transaction\"\ndefault_role = \"{}\"\nprimary_reads_enabled = true\ndefault_shard = \"{}\"\n", p.name, p.default_role, p.default_shard));
         if !p.extra.iter().any(|e| e.starts_with("query_parser_enabled")) {
